@@ -119,6 +119,13 @@ def run_runner_case(case: dict[str, Any]) -> dict[str, Any]:
                 raise EXN[ending["e"]]()
             if kind == "cliReturn":
                 r = ending["r"]
+                if r == "int" and ending.get("isub"):
+                    # an instance of an int subclass (a named exit status, say) is an int
+                    import enum
+
+                    if ending["isub"] == "enum" and ending["n"] >= 0:
+                        return enum.IntEnum("ExitStatus", {"CODE": ending["n"]}).CODE
+                    return type("Code", (int,), {})(ending["n"])
                 return None if r == "none" else (NON_INTS[ending.get("ov", 0)]() if r == "other" else ending["n"])
             return 0
 
@@ -138,7 +145,7 @@ def run_runner_case(case: dict[str, Any]) -> dict[str, Any]:
                             logging=None, start_timeout=5 * TICK)
         outcome = {"k": "returned"}
     except SystemExit as e:
-        outcome = {"k": "systemExit", "n": e.code if isinstance(e.code, int) and not isinstance(e.code, bool) else repr(e.code)}
+        outcome = {"k": "systemExit", "n": int(e.code) if isinstance(e.code, int) and not isinstance(e.code, bool) else repr(e.code)}
     except BaseException as e:  # noqa: BLE001
         idx = next((k for k, c in enumerate(EXN) if type(e) is c), None)
         outcome = {"k": "propagated", "e": idx} if idx is not None else {"k": "other", "exc": repr(e)}
